@@ -44,6 +44,7 @@ DeltaOf(d) == CASE d = "d1" -> [mx |-> 8]
                 [] d = "d6" -> [mn |-> -1]
                 [] d = "d7" -> [mn |-> 2, mx |-> 12]
                 [] d = "d8" -> [dn |-> 50, mx |-> 10]
+                [] d = "d9" -> [mx |-> 1, mn |-> 0]          \* both bounds at once, the upper one below an earlier lower bound (d7)
                 [] OTHER -> [mx |-> 8]
 Merge(o, dl) == [k \in DOMAIN o |-> IF k \in DOMAIN dl THEN dl[k] ELSE o[k]]
 
